@@ -38,6 +38,7 @@ except ImportError:          # the model-free families are an add-on
     c10_extra = None
 
 MODELLED = ("cb", "sp", "md", "ht", "hp", "sl", "pg", "mb", "slb", "ct", "dg", "hm")
+MODEL_BACKED_EXTRA = ("pool-alloc", "pool-realloc", "mp-alloc")    # generators in c10_extra, models from C09
 
 
 def build(ck):
@@ -625,9 +626,11 @@ def run(ck):
         "models lean/Usual/C10/{Alloc,Tree,Structs}.lean are tied to the code by fault enumeration: harness/C10/h.c "
         "(allocator layer fi.h: one request counter for the CxMem and the --wrap'ped libc entry points) vs model "
         "driver drv_c10 on the same op lines, generator + monitor in checks/C10.py",
-        "model-free families (cx pool, JSON, talloc, regex/mempool, fnmatch/wchar, tls_config, cx_sprintf): the "
-        "monitor only (no crash, failure => contents unchanged, continued use = fault-free run without the failed "
-        "ops, balance 0); no theorem speaks about them",
+        "cx pool and mempool families: compared with the driver through the C09 models (Usual/C10/CxPool.lean); "
+        "JSON, talloc, regcomp: theorems over the C03 / C01+C19 / C09 models (Usual/C10/{Json,TallocA,CxPool}.lean) "
+        "with allocation sizes / sequences as parameters, tie = the monitor (no crash, failure => contents "
+        "unchanged, continued use = fault-free run without the failed ops, balance 0); fnmatch/wchar, tls_config, "
+        "cx_sprintf: monitor only",
         "pointer-level safety is ASan/UBSan's; request sizes are not compared",
     ]
     ck.assumptions += [
@@ -649,7 +652,8 @@ def run(ck):
     hcmd = bins["h"]
 
     if not ck.quick():
-        ck.leanchecker(PROP_MODULES + ["UsualProofs.C10.Script", "UsualProofs.C10.Pools",
+        ck.leanchecker(PROP_MODULES + ["UsualProofs.C10.Script2", "UsualProofs.C10.CxPool", "UsualProofs.C10.Json",
+                                       "UsualProofs.C10.TallocA", "UsualProofs.C10.Script", "UsualProofs.C10.Pools",
                                        "UsualProofs.C10.Structs", "UsualProofs.C10.Tree",
                                        "UsualProofs.C10.Alloc"])
     corpus = vf.corpus_cases(PID)
@@ -670,6 +674,11 @@ def run(ck):
             if hb not in bins:
                 continue
             scripts = [gen(rng) for _ in range(nscripts)]
+            if name in MODEL_BACKED_EXTRA:
+                # cx pool / mempool: the C09 models (concrete LP64 layout) predict every request
+                # point, so these families are compared with the model driver like the others
+                run_modelled(ck, bins[hb], dcmd, name, scripts, rng, ndouble)
+                continue
             check_model_free(ck, bins[hb], scripts, name, opts, rng, ndouble)
             xc = [c for c in corpus if c and any(l.startswith(opts.get("prefix", "\0")) for l in c)]
             for c in xc:
@@ -687,7 +696,7 @@ def run(ck):
     ck.cov["exhaustive"] = False
     ck.cov["partial"] = [
         "request sizes are not compared (layout-dependent), only count, order and role",
-        "cx pool, JSON, talloc, regex/mempool, fnmatch/wchar, tls_config: fault enumeration with the monitor only (no Lean model)",
+        "JSON, talloc, regcomp: theorem-backed (models of C03, C01/C19, C09 reused) but tied by the monitor only; fnmatch/wchar, tls_config, cx_sprintf: monitor only (no Lean model)",
         "tls_config setters: no crash / no leak / error reported only (set_string frees the old value first)",
     ]
 
@@ -729,4 +738,5 @@ def replay(ck, path):
         vf.log("replay: %s: %s" % (bad[0][2], bad[0][1]))
         vf.log(f"VIOLATION property={ck.pid} replay={path}")
         return 1
-    return vf.generic_replay(ck, path, bins["h"], dcmd)
+    hb = "h2" if any(l.startswith("mp ") for l in ops) and "h2" in bins else "h"
+    return vf.generic_replay(ck, path, bins[hb], dcmd)
